@@ -41,7 +41,7 @@ Lemma establish_session c remote ch sg eph eph_ok rec se e :
   establish c remote ch sg eph eph_ok rec = EstOk se e ->
   se = {| s_enc := mk_key eph (cfg_local c) (ch_cd ch) remote (cfg_local c) true;
           s_dec := mk_key eph (cfg_local c) (ch_cd ch) remote (cfg_local c) false;
-          s_old := None; s_await := None; s_counter := 0 |} /\
+          s_old := None; s_await := None; s_counter := 0; s_used := 0 |} /\
   exists cdk ephk dst, sg = Sig (e_id e) cdk ephk dst /\ cdk = ch_cd ch /\ ephk = eph /\ dst = cfg_local c.
 Proof.
   unfold establish. destruct (_ && _); [discriminate |].
@@ -70,7 +70,8 @@ Qed.
    reported. *)
 Definition pinned_cfg : config :=
   {| cfg_local := 1; cfg_enr := {| e_id := 1; e_seq := 1; e_ip4 := None; e_ip6 := None |};
-     cfg_retries := 1; cfg_timeout := 1000; cfg_listen := []; cfg_capacity := 10%nat; cfg_grid := 0;
+     cfg_retries := 1; cfg_timeout := 1000; cfg_listen := []; cfg_capacity := 10%nat;
+     cfg_session_ttl := 1000000; cfg_clock := 0; cfg_grid := 0;
      fix_d1 := false; fix_d2a := false; fix_d2b := false; fix_d6 := false |}.
 Lemma establish_pinned_refuted :
   exists c remote ch sg eph rec se e,
@@ -245,7 +246,7 @@ Proof.
       - exists [OEvent (HUnverifiable e (snd na) (fst na))]. split; [reflexivity |].
         constructor; [right; right; reflexivity | constructor]. }
     split; [congruence | split; [| split; [| split; [| split]]]].
-    + eapply SessD_F_N; [apply SessD_same; exact S3 | apply SessF_same; exact S3 | exact HN].
+    + eapply SessD_N; [apply SessD_same; exact S3 | exact HN].
     + intros H. apply HU. unfold SessUniq. rewrite S3. exact H.
     + eapply OutsExt_trans; [exact O3 |]. eapply OutsExt_weaken; [| exact HO]. intros o H; left; exact H.
     + intros Hv. destruct HO as [l [El _]]. rewrite El. apply in_or_app. left.
@@ -275,9 +276,9 @@ Definition key_for (c : config) (X : id) (k : key) : Prop :=
 Definition NH (na : naddr) (se : session) (h h' : hstate) : Prop :=
   challenges h' = challenges h /\ SessN na se h h' /\ UPres h h'.
 
-Lemma NH_prefix na se a b d : QH a b -> SessF a b -> NH na se b d -> NH na se a d.
+Lemma NH_prefix na se a b d : QH a b -> NH na se b d -> NH na se a d.
 Proof.
-  intros [E [D U]] F [E' [N U']]. split; [congruence | split; [eapply SessD_F_N; eauto |]].
+  intros [E [D U]] [E' [N U']]. split; [congruence | split; [eapply SessD_N; eauto |]].
   intros H. apply U'. apply U. exact H.
 Qed.
 Lemma NS_NH na se s s' : NS na se s s' -> NH na se (hs s) (hs s').
@@ -289,7 +290,7 @@ Lemma handle_challenge_frame c s src n seq cd now :
   exists ct eph await,
     let se := {| s_enc := mk_key eph (c_id ct) cd (cfg_local c) (c_id ct) false;
                  s_dec := mk_key eph (c_id ct) cd (cfg_local c) (c_id ct) true;
-                 s_old := None; s_await := await; s_counter := 0 |} in
+                 s_old := None; s_await := await; s_counter := 0; s_used := 0 |} in
     NH (c_naddr ct) se (hs s) (hs s').
 Proof.
   cbn zeta. unfold handle_challenge.
@@ -303,7 +304,7 @@ Proof.
   destruct found as [[na r] |]; [| left; exact Hr].
   destruct (negb (N.eqb (snd na) src)).
   { left. eapply QH_trans; [exact Hr | apply QH_ar_insert]. }
-  destruct (rc_hs_sent r).
+  destruct (rc_hs_sent r || c_ed (rc_contact r)).
   { left. set (s2 := if fix_d6 c then _ else _).
     assert (H2 : QuietF s s2).
     { unfold s2. destruct (fix_d6 c).
@@ -317,20 +318,16 @@ Proof.
   destruct (c_enr ct) as [e |].
   - exists ct, eph, None. cbn zeta.
     match goal with |- NH _ ?se _ (hs (new_session _ ?s5 _ _ _ _)) =>
-      apply (NH_prefix _ _ _ (hs s5)); [| | apply NS_NH; apply NS_new_session] end.
-    + eapply QH_trans; [exact Hr |]. apply QH_same; reflexivity.
-    + apply SessF_same. cbn. exact Sr.
+      apply (NH_prefix _ _ _ (hs s5)); [| apply NS_NH; apply NS_new_session] end.
+    eapply QH_trans; [exact Hr |]. apply QH_same; reflexivity.
   - destruct (pop_rid _) as [irid d''].
     match goal with |- context [send_request c ?s5 ct false irid 0 now] =>
       pose proof (Quiet_send_request c s5 ct false irid 0 now) as [Hq _];
-      pose proof (QF_send_request c s5 ct false irid 0 now) as Hf;
       assert (H5 : QH (hs s) (hs s5)) by (eapply QH_trans; [exact Hr |]; apply QH_same; reflexivity);
-      assert (F5 : SessF (hs s) (hs s5)) by (apply SessF_same; cbn; exact Sr);
       destruct (send_request c s5 ct false irid 0 now) as [s6 ok]
     end.
-    cbn [fst] in Hq, Hf.
+    cbn [fst] in Hq.
     exists ct, eph, (Some irid). cbn zeta.
-    apply (NH_prefix _ _ _ (hs s6)); [| | apply NS_NH; apply NS_new_session].
-    + eapply QH_trans; [exact H5 | exact Hq].
-    + eapply SessF_trans; [exact F5 | exact Hf].
+    apply (NH_prefix _ _ _ (hs s6)); [| apply NS_NH; apply NS_new_session].
+    eapply QH_trans; [exact H5 | exact Hq].
 Qed.
